@@ -946,6 +946,27 @@ fn gen_component(rng: &mut Rng, sw: &Swarm, index: usize) -> Component {
             add_defaults(rng, sw, d, &defs_model, true);
         }
     }
+    // a definition that carries the very name typify generates for an inline child
+    // of another definition (`Foo` + inline object property `bar`, and `FooBar`)
+    if sw.awkward && sw.defaults == 0 && rng.chance(1, 8) {
+        let mut found: Option<String> = None;
+        for (pn, ps) in defs.iter() {
+            if let Some(props) = ps.get("properties").and_then(|p| p.as_object()) {
+                for (prop, sch) in props {
+                    let simple = prop.chars().all(|c| c.is_ascii_lowercase());
+                    if simple && sch.get("title").is_none() && sch.get("type") == Some(&json!("object")) && sch.get("properties").is_some() {
+                        found = Some(format!("{}_{}", pascal(pn), prop));
+                    }
+                }
+            }
+        }
+        if let Some(child) = found {
+            let key = pascal(&child);
+            if !defs.keys().any(|k| pascal(k) == key) {
+                defs.insert(key, json!({"type": "object", "properties": {"y": {"type": "string"}}}));
+            }
+        }
+    }
     // a wrapper type with a default of its own, and a property of that type whose
     // default OVERRIDES it - sometimes with the zero value of the wrapped type
     // (the property's default wins; the wrapper's own default is for other uses)
